@@ -169,9 +169,10 @@ def xy(P):
     return ("xy", P[0], P[1])
 
 
-def point_alphabet(cname, observe=None):
+def point_alphabet(cname, observe=None, deep=False):
     """-> list of (label, recipe, class, reference affine point); needs the library (constructibility of the
-    low-order points is decided here, deterministically)."""
+    low-order points is decided here, deterministically).  deep (thorough tier) appends further points: every entry of the
+    4-bit window, the same value in several projective representations, projective opposites, more seeded points."""
     c = R.CURVES[cname]
     n = c.order
     G = c.G
@@ -221,6 +222,28 @@ def point_alphabet(cname, observe=None):
             A.append((lab, rec, "low-order"))
         A.append(("G+T%d" % h, xy(R.add(c, G, T)), "mixed-order"))
         A.append(("W0+T2", ("sum", g(ms[0]), t2), "mixed-order"))
+    if deep:
+        # the remaining entries 4G..15G of the run-time window of src/ec_ws.c (2G, 3G are above) and the first ones beyond it
+        A += [("%dG" % m, g(m), "generic") for m in range(4, 18)]
+        # one value, several representations: 2G as G'+G' and 2*G' (z != 1; 2G and dbl(G) are above); -G, -2G, G with z != 1
+        A += [("G'+G'", ("sum", xy(G), xy(G)), "generic"), ("2*G'", ("mul", xy(G), 2), "generic"),
+              ("(n-1)*G'[z!=1]", ("mul", xy(G), n - 1), "generic"), ("(n-2)*G'[z!=1]", ("mul", xy(G), n - 2), "generic"),
+              ("-2G", g(n - 2), "generic"), ("-3G", g(n - 3), "generic"), ("3G+(-2G)", ("sum", g(3), g(n - 2)), "generator-projective"),
+              ("dbl(dbl(G))", ("dbl", ("dbl", xy(G))), "generic"), ("-(dbl(G))", ("neg", ("dbl", xy(G))), "generic")]
+        # seeded points: opposite, projective twin, projective opposite, double, further sums
+        A += [("-W0", g(n - ms[0]), "generic"), ("(W0-G)+G[z!=1]", ("sum", g(ms[0] - 1), xy(G)), "generic"),
+              ("(n-1)*W0[z!=1]", ("mul", g(ms[0]), n - 1), "generic"), ("2W0", g(2 * ms[0]), "generic"), ("dbl(W0)", ("dbl", g(ms[0])), "generic"),
+              ("-W1", g(n - ms[1]), "generic"), ("W1+W2", ("sum", g(ms[1]), g(ms[2])), "generic"),
+              ("W3+(-W3)", ("sum", g(ms[3]), g(n - ms[3])), "neutral"), ("0*W4", ("mul", g(ms[4]), 0), "neutral")]
+        A += [("W%d" % (5 + i), g(m), "generic") for i, m in enumerate(H.seeded_multiples(cname, 8)[5:])]
+        if cname in H.WEIER and y0 is not None:
+            A.append(("(0,-sqrt(b))", xy((0, c.p - y0)), "generic"))
+        if cname in H.EDW:
+            th = [a for a in A if a[0] == "T%d[1]" % h][0][1]
+            A += [("T%d+T%d[z!=1]" % (h, h), ("sum", th, th), "low-order"), ("%d*T%d" % (h // 2, h), ("mul", th, h // 2), "low-order"),
+                  ("%d*T%d" % (h, h), ("mul", th, h), "neutral"), ("T2+T2", ("sum", t2, t2), "neutral"),
+                  ("G+T2", xy(R.add(c, G, ref_eval(cname, t2))), "mixed-order"), ("-(G+T%d)" % h, xy(R.neg(c, R.add(c, G, T))), "mixed-order"),
+                  ("n*(G+T%d)" % h, ("mul", xy(R.add(c, G, T)), n), "low-order"), ("%d*(W0+T2)" % h, ("mul", ("sum", g(ms[0]), t2), h), "generic")]
     return [(lab, rec, cls, ref_eval(cname, rec)) for lab, rec, cls in A]
 
 
@@ -272,8 +295,9 @@ def lib_x(P):
         return None
 
 
-def xpoint_alphabet(cname, reduced=False):
-    """-> list of (label, recipe, class, reference u)"""
+def xpoint_alphabet(cname, reduced=False, deep=False):
+    """-> list of (label, recipe, class, reference u); deep (thorough tier) appends every u up to 32, the neighbours of p and of
+    the encoding limits, more seeded points and more points reached by arithmetic"""
     c = R.CURVES[cname]
     p, n = c.p, c.order
     nb = c.size_bytes
@@ -303,6 +327,25 @@ def xpoint_alphabet(cname, reduced=False):
     A += [("n*G", ("xmul", ("x", c.Gu), n), "neutral"), ("(n+1)*G", ("xmul", ("x", c.Gu), n + 1), "generator"),
           ("2*low(0)", ("xmul", ("x", 0), 2), "neutral"), ("2*low(1)", ("xmul", ("x", 1), 2), "order-2"),
           ("W0.copy()", ("xcp", ("x", H.xmul(cname, ms[0], c.Gu))), "generic")]
+    if deep:
+        have = {a[1][1] for a in A if a[1][0] == "x"}
+        top = 1 << (8 * nb)
+        cand = [("u=%d" % u, u) for u in range(2, 33)]
+        cand += [("p-%d" % d, p - d) for d in (2, 3, 4, 5)] + [("p+%d" % d, p + d) for d in (2, 3, 4, 5)]
+        cand += [("2^(bits-1)", 1 << (c.bits - 1)), ("2^(bits-1)+1", (1 << (c.bits - 1)) + 1), ("2^(8*bytes)-2", top - 2), ("2^(8*bytes-1)", top >> 1),
+                 ("-Gu", p - c.Gu), ("(p-1)/2", (p - 1) // 2), ("(p+1)/2", (p + 1) // 2)]
+        if cname == "curve25519":
+            cand += [("2^255", 1 << 255), ("2^255+1", (1 << 255) + 1), ("2^255+Gu", (1 << 255) + c.Gu), ("2p+Gu", 2 * p + c.Gu), ("2^256-20", top - 20)]
+        for lab, u in cand:
+            if u not in have and 0 <= u < top:
+                have.add(u)
+                B, _ = H._lift(c, u)
+                A.append((lab, ("x", u), "generic" if B == 1 else "twist"))
+        for i, mlt in enumerate(H.seeded_multiples(cname, 6)[3:]):
+            A.append(("W%d" % (3 + i), ("x", H.xmul(cname, mlt, c.Gu)), "generic"))
+        A += [("(n-1)*G", ("xmul", ("x", c.Gu), n - 1), "generator"), ("h*low(x)", ("xmul", ("x", low[-1] if low[-1] not in (0, 1, p - 1) else low[2 % len(low)]), c.cofactor), "neutral"),
+              ("0*W1", ("xmul", ("x", H.xmul(cname, ms[1], c.Gu)), 0), "neutral"), ("2*(2*G)", ("xmul", ("xmul", ("x", c.Gu), 2), 2), "generic"),
+              ("n*twist", ("xmul", ("x", tw), n), "twist"), ("O.copy()", ("xcp", ("xO",)), "neutral")]
     if reduced:
         keep = {"O", "G", "G'", "low(0)", "low(1)", "low(p-1)", "p", "p+Gu", "u=%d(twist)" % tw, "W0", "n*G", "2*low(1)"}
         A = [a for a in A if a[0] in keep]
